@@ -36,7 +36,7 @@ class World:
     required_probes = ["mixed_types_sum", "three_component_grouping_left", "three_component_grouping_right", "inplace_add",
                        "self_add", "add_inside_units_context", "constructed_under_units", "refused_temperature",
                        "refused_axis", "value_defined_right_operand", "sum_of_sums", "spectral_density_sum",
-                       "even_odd_checked", "measure_checked", "copy_of_composite"]
+                       "even_odd_checked", "measure_checked", "copy_of_composite", "public_add_to_data", "template_dict_reused"]
     required_faults = ["different_temperature", "different_axis"]
     components = {
         "real": ["CorrelationFunction / SpectralDensity constructors, __add__, __iadd__, add_to_data(2), copy",
@@ -64,12 +64,12 @@ class World:
         sdrun = rng.random() < 0.3
         for _ in range(npre):
             ops.append(self._gen_new(rng, kf, sdrun))
-        kinds = ["new", "add", "add", "add", "iadd", "selfadd", "copy", "valdef", "measure", "evenodd", "addctx"]
+        kinds = ["new", "add", "add", "add", "iadd", "selfadd", "copy", "valdef", "measure", "measure", "evenodd", "addctx", "pubadd"]
         for _ in range(n):
             k = rng.choice(kinds)
             if k == "new":
                 ops.append(self._gen_new(rng, kf, sdrun))
-            elif k in ("add", "iadd"):
+            elif k in ("add", "iadd", "pubadd"):
                 ops.append({"op": k, "i": rng.randrange(16), "j": rng.randrange(16)})
             elif k == "addctx":
                 ops.append({"op": "add", "i": rng.randrange(16), "j": rng.randrange(16), "unit": rng.randrange(len(UNITS))})
@@ -86,7 +86,7 @@ class World:
                 "unit": rng.randrange(len(UNITS)), "axis": rng.choice([0, 0, 0, 1, 2]), "T": rng.choice([0, 0, 0, 1]),
                 "reorg": round(rng.uniform(5, 100), 3), "cortime": round(rng.uniform(30, 300), 2),
                 "freq": round(rng.uniform(100, 800), 2), "gamma": round(rng.uniform(5, 50), 3),
-                "matsubara": rng.choice([None, 5, 20])}
+                "matsubara": rng.choice([None, 5, 20]), "template": rng.random() < 0.25}
 
     def run(self, program, ctx):
         Runner(program, ctx).go()
@@ -132,6 +132,7 @@ class Runner:
         self.pool = []
         self.fresh = {}
         self.good_adds = 0
+        self.templates = {}      # the caller's own parameter dictionaries, re-used (and edited) between constructions
 
     # ---------------------------------------------------------------- model
     def types(self, kind):
@@ -229,9 +230,18 @@ class Runner:
                 given[k] = float(qr.convert(raw[k], "1/cm", to=u))
         cls = qr.CorrelationFunction if kind == "cf" else qr.SpectralDensity
         ax = op["axis"]
+        if op.get("template"):
+            # the usual way of making several components: one dictionary, edited and handed over again
+            tmpl = self.templates.setdefault(kind, {})
+            tmpl.clear()
+            tmpl.update(given)
+            handed = tmpl
+            self.ctx.probe("template_dict_reused")
+        else:
+            handed = dict(given)
         try:
             with qr.energy_units(u):
-                obj = cls(self.axes[ax], dict(given))
+                obj = cls(self.axes[ax], handed)
                 spec = dict(given)
                 for k in ENERGY_KEYS:
                     if k in spec:
@@ -332,6 +342,35 @@ class Runner:
         if b is None or b == a:
             return
         self._do_add(i, a, b, True)
+
+    def op_pubadd(self, i, op):
+        """a.add_to_data(b): the public in-place addition that does not rebuild a"""
+        a = self.pick(op["i"], lambda e: not any(c[0] == "values" for c in e.comps))
+        if a is None:
+            return
+        kind = self.pool[a].kind
+        b = self.pick(op["j"], lambda e: e.kind == kind)
+        if b is None or b == a:
+            return
+        A, B = self.pool[a], self.pool[b]
+        same_axis = (A.axis in (0, 1)) == (B.axis in (0, 1))
+        same_T = (A.kind != "cf") or (A.T == B.T)
+        try:
+            A.real.add_to_data(B.real)
+            raised = None
+        except Exception as e:
+            raised = type(e).__name__
+        if not (same_axis and same_T):
+            check(raised is not None, "inadmissible-addition-accepted", "op %d: add_to_data of entries #%d and #%d was accepted" % (i, a, b))
+            A.alive = False
+            self.ctx.ev(i, "pubadd", a, b, "refused")
+            return
+        if raised is not None:
+            raise Violation("addition-raises", "op %d: add_to_data: %s" % (i, raised))
+        A.comps = list(A.comps) + list(B.comps)
+        self.ctx.probe("public_add_to_data")
+        self.ctx.ev(i, "pubadd", a, b)
+        self.ctx.cov("pubadd", A.kind, min(len(A.comps), 4))
 
     def op_selfadd(self, i, op):
         a = self.pick(op["i"], lambda e: not any(c[0] == "values" for c in e.comps))
